@@ -85,59 +85,59 @@ theorem non_numeric_string_is_error_unsigned (k : IntKind) (s : Str) (hk : signe
     convertArg (.str s) (.int k) = some cannot := by
   simp [convertArg, hk, h]
 
+theorem digitsToNat_lt (d : Str) (hd : d.all isDigit = true) : digitsToNat d < 10 ^ d.length := by
+  have hbound : ∀ (d : Str) (acc : Nat), d.all isDigit = true →
+      d.foldl (fun n c => n * 10 + (c.toNat - '0'.toNat)) acc < (acc + 1) * 10 ^ d.length := by
+    intro d
+    induction d with
+    | nil => intro acc _; simp
+    | cons c r ih =>
+      intro acc hall
+      simp only [List.all_cons, Bool.and_eq_true] at hall
+      obtain ⟨hc, hr⟩ := hall
+      have hcd : c.toNat - '0'.toNat ≤ 9 := by
+        simp only [isDigit, Bool.and_eq_true, decide_eq_true_eq] at hc
+        have h2 : c.toNat ≤ '9'.toNat := hc.2
+        have : '9'.toNat = 57 := by decide
+        have : '0'.toNat = 48 := by decide
+        omega
+      have h := ih (acc * 10 + (c.toNat - '0'.toNat)) hr
+      simp only [List.foldl_cons, List.length_cons]
+      calc _ < (acc * 10 + (c.toNat - '0'.toNat) + 1) * 10 ^ r.length := h
+        _ ≤ ((acc + 1) * 10) * 10 ^ r.length := Nat.mul_le_mul_right _ (by omega)
+        _ = (acc + 1) * 10 ^ (r.length + 1) := by rw [Nat.pow_succ, Nat.mul_assoc, Nat.mul_comm 10]
+  have := hbound d 0 hd
+  unfold digitsToNat
+  omega
+
+/-- `strconv.ParseInt` / `Atoi` of a string of at most 18 decimal digits is the number the digits spell -/
+theorem parseInt64_of_digits (d : Str) (hne : d ≠ []) (hd : d.all isDigit = true) (hlen : d.length ≤ 18) :
+    parseInt64 d = some (digitsToNat d : Int) := by
+  have hlt : digitsToNat d < 10 ^ 18 :=
+    Nat.lt_of_lt_of_le (digitsToNat_lt d hd) (Nat.pow_le_pow_right (by decide) hlen)
+  have hrange : (-((2 : Int) ^ 63) ≤ (digitsToNat d : Int) && decide ((digitsToNat d : Int) < (2 : Int) ^ 63)) = true := by
+    have : (10 : Int) ^ 18 < 2 ^ 63 := by decide
+    have h2 : ((digitsToNat d : Nat) : Int) < (10 : Int) ^ 18 := by exact_mod_cast hlt
+    simp only [Bool.and_eq_true, decide_eq_true_eq]
+    constructor <;> omega
+  cases d with
+  | nil => exact absurd rfl hne
+  | cons c r =>
+    have hc : isDigit c = true := by simp only [List.all_cons, Bool.and_eq_true] at hd; exact hd.1
+    have h1 : c ≠ '-' := by intro hx; subst hx; revert hc; decide
+    have h2 : c ≠ '+' := by intro hx; subst hx; revert hc; decide
+    have hemp : (c :: r).isEmpty = false := rfl
+    unfold parseInt64
+    split
+    · rename_i heq; cases heq; exact absurd rfl h1
+    · rename_i heq; cases heq; exact absurd rfl h2
+    · simp only [hemp, hd, Bool.not_true, Bool.or_self, Bool.false_eq_true, ↓reduceIte, hrange]
+
 /-- a string of decimal digits (at most 18, so within int64) passed for an `int` parameter is the number it spells -/
 theorem digits_for_int_parameter (d : Str) (hne : d ≠ []) (hd : d.all isDigit = true) (hlen : d.length ≤ 18) :
     convertArg (.str d) (.int .int) = some (.ok (.int .int (digitsToNat d))) := by
-  have hbound : ∀ (d : Str) (acc : Nat), d.foldl (fun n c => n * 10 + (c.toNat - '0'.toNat)) acc < (acc + 1) * 10 ^ d.length ∨ ¬ (d.all isDigit = true) := by
-    intro d
-    induction d with
-    | nil => intro acc; left; simp
-    | cons c r ih =>
-      intro acc
-      by_cases hc : isDigit c = true
-      · by_cases hr : r.all isDigit = true
-        · left
-          have hcd : c.toNat - '0'.toNat ≤ 9 := by
-            simp only [isDigit, Bool.and_eq_true, decide_eq_true_eq] at hc
-            have h2 : c.toNat ≤ '9'.toNat := hc.2
-            have : '9'.toNat = 57 := by decide
-            have : '0'.toNat = 48 := by decide
-            omega
-          rcases ih (acc * 10 + (c.toNat - '0'.toNat)) with h | h
-          · simp only [List.foldl_cons, List.length_cons]
-            calc _ < (acc * 10 + (c.toNat - '0'.toNat) + 1) * 10 ^ r.length := h
-              _ ≤ ((acc + 1) * 10) * 10 ^ r.length := Nat.mul_le_mul_right _ (by omega)
-              _ = (acc + 1) * 10 ^ (r.length + 1) := by rw [Nat.pow_succ, Nat.mul_assoc, Nat.mul_comm 10]
-          · exact absurd hr h
-        · right; simp [hc, hr]
-      · right; simp [hc]
-  have hlt : digitsToNat d < 10 ^ 18 := by
-    rcases hbound d 0 with h | h
-    · have : 10 ^ d.length ≤ 10 ^ 18 := Nat.pow_le_pow_right (by decide) hlen
-      unfold digitsToNat
-      omega
-    · exact absurd hd h
-  have hfirst : ∀ c r, d = c :: r → c ≠ '-' ∧ c ≠ '+' := by
-    intro c r hcr
-    subst hcr
-    have hc : isDigit c = true := by simp only [List.all_cons, Bool.and_eq_true] at hd; exact hd.1
-    constructor <;> (intro hx; subst hx; revert hc; decide)
-  have hparse : parseInt64 d = some (digitsToNat d : Int) := by
-    have hrange : (-((2 : Int) ^ 63) ≤ (digitsToNat d : Int) && decide ((digitsToNat d : Int) < (2 : Int) ^ 63)) = true := by
-      have : (10 : Int) ^ 18 < 2 ^ 63 := by decide
-      have h2 : ((digitsToNat d : Nat) : Int) < (10 : Int) ^ 18 := by exact_mod_cast hlt
-      simp only [Bool.and_eq_true, decide_eq_true_eq]
-      constructor <;> omega
-    cases d with
-    | nil => exact absurd rfl hne
-    | cons c r =>
-      obtain ⟨h1, h2⟩ := hfirst c r rfl
-      have hemp : (c :: r).isEmpty = false := rfl
-      unfold parseInt64
-      split
-      · rename_i heq; cases heq; exact absurd rfl h1
-      · rename_i heq; cases heq; exact absurd rfl h2
-      · simp only [hemp, hd, Bool.not_true, Bool.or_self, Bool.false_eq_true, ↓reduceIte, hrange]
+  have hlt : digitsToNat d < 10 ^ 18 :=
+    Nat.lt_of_lt_of_le (digitsToNat_lt d hd) (Nat.pow_le_pow_right (by decide) hlen)
   have hw : wrap .int (digitsToNat d : Int) = (digitsToNat d : Int) := by
     apply wrap_of_in_range
     unfold inRange
@@ -145,7 +145,7 @@ theorem digits_for_int_parameter (d : Str) (hne : d ≠ []) (hd : d.all isDigit 
     have h2 : ((digitsToNat d : Nat) : Int) < (10 : Int) ^ 18 := by exact_mod_cast hlt
     simp only [signed, ↓reduceIte, bits]
     constructor <;> omega
-  simp [convertArg, signed, hparse, hw]
+  simp [convertArg, signed, parseInt64_of_digits d hne hd hlen, hw]
 
 /-- THE ARGUMENT-COUNT RULE: a function that is not variadic is called exactly when the number of arguments equals the number of its
     parameters; otherwise the call is an error - the conversion is never reached -/
